@@ -4,3 +4,4 @@ import RB.Model.Stats
 import RB.Proofs.C15
 import RB.Model.Adapters
 import RB.Util.AdapterJson
+import RB.Proofs.C12
